@@ -70,6 +70,12 @@ func genC18(ref core.CaseRef, r *rand.Rand) *c18Batch {
 			b.BlockMs = 2
 		}
 	}
+	if b.Strategy == "block" && ref.Index%12 >= 4 && ref.Index%2 == 1 {
+		// window queries: a block timeout far beyond Stop's grace period behind a slow or blocked sink (the
+		// 2-slot window output fills up): Stop must not wait for that timeout anywhere
+		b.BlockMs = 300000
+		b.Sink = pick(r, []string{"slow", "blocking"})
+	}
 	if ref.Index%11 == 7 || q.Name == "direct_vpanic" || (ref.Index%5 == 1 && (q.Name == "counting" || q.Name == "global" || q.Name == "direct")) {
 		b.Mode = "survival"
 		b.Strategy = "block"
